@@ -18,6 +18,7 @@ package interp
 import (
 	"fmt"
 	"os"
+	"sort"
 )
 
 type schedEvent struct {
@@ -135,10 +136,44 @@ type traceState struct {
 	threads []*schedThread
 	cur     int
 	semCap  map[interface{}]int64
+	// data accesses (race analysis): per memory cell the accesses of every goroutine
+	recAcc bool
+	acc    map[interface{}][]accRec
+	held   map[int][]heldLock
+}
+
+type heldLock struct {
+	m     interface{}
+	write bool
+}
+
+type accRec struct {
+	g, pos int // goroutine, number of sync events it had performed
+	write  bool
+	locks  []heldLock
+	site   string
 }
 
 func newTraceState() *traceState {
-	return &traceState{threads: []*schedThread{{parent: -1}}, semCap: map[interface{}]int64{}}
+	return &traceState{threads: []*schedThread{{parent: -1}}, semCap: map[interface{}]int64{},
+		acc: map[interface{}][]accRec{}, held: map[int][]heldLock{}}
+}
+
+// access records a read or write of a memory cell by the current goroutine.
+func (t *traceState) access(cell interface{}, write bool, site string) {
+	if !t.recAcc {
+		return
+	}
+	pos := len(t.threads[t.cur].events)
+	lst := t.acc[cell]
+	// one record per (goroutine, position, kind, lock state) is enough
+	for k := len(lst) - 1; k >= 0 && k >= len(lst)-4; k-- {
+		r := lst[k]
+		if r.g == t.cur && r.pos == pos && r.write == write && len(r.locks) == len(t.held[t.cur]) {
+			return
+		}
+	}
+	t.acc[cell] = append(lst, accRec{t.cur, pos, write, append([]heldLock{}, t.held[t.cur]...), site})
 }
 
 func (t *traceState) syncEvent(kind string, obj value, n int64) {
@@ -148,6 +183,20 @@ func (t *traceState) syncEvent(kind string, obj value, n int64) {
 	}
 	th := t.threads[t.cur]
 	th.events = append(th.events, schedEvent{kind: kind, obj: key, n: n})
+	switch kind {
+	case "(*sync.Mutex).Lock", "(*sync.RWMutex).Lock":
+		t.held[t.cur] = append(t.held[t.cur], heldLock{key, true})
+	case "(*sync.RWMutex).RLock":
+		t.held[t.cur] = append(t.held[t.cur], heldLock{key, false})
+	case "(*sync.Mutex).Unlock", "(*sync.RWMutex).Unlock", "(*sync.RWMutex).RUnlock":
+		h := t.held[t.cur]
+		for k := len(h) - 1; k >= 0; k-- {
+			if h[k].m == key {
+				t.held[t.cur] = append(append([]heldLock{}, h[:k]...), h[k+1:]...)
+				break
+			}
+		}
+	}
 }
 
 // spawn runs the new goroutine's function at once, recording its events in a list of its own.
@@ -489,6 +538,16 @@ func (i *interpreter) scheduleCheckPO(cpus int) {
 		panic("verifScheduleCheck without verifTraceStart")
 	}
 	i.trace = nil
+	i.poBuild(t, cpus, true)
+}
+
+type poModel struct {
+	valid, full *Term
+	accA, accB  *Term // time stamps of the blocks holding the two access events (race queries)
+}
+
+// poBuild builds the partial-order model of t; with monitors it also discharges the schedule obligations.
+func (i *interpreter) poBuild(t *traceState, cpus int, monitors bool) *poModel {
 	tt := i.tt
 	rawN := 0
 	for _, th := range t.threads {
@@ -507,14 +566,18 @@ func (i *interpreter) scheduleCheckPO(cpus int) {
 	if B > 400 {
 		panic(unsupported{fmt.Sprintf("schedule model too large: %d blocks", B)})
 	}
-	i.reach[fmt.Sprintf("schedule-model threads=%d events=%d steps=%d", T, rawN, B)]++
+	if monitors {
+		i.reach[fmt.Sprintf("schedule-model threads=%d events=%d steps=%d", T, rawN, B)]++
+	}
 	w := bitsFor(B + 1)
 	x := map[blk]*Term{}
 	tau := map[blk]*Term{}
 	for _, b := range blocks {
 		xn := i.freshName(fmt.Sprintf("x_%d_%d", b.t, b.j))
 		tn := i.freshName(fmt.Sprintf("at_%d_%d", b.t, b.j))
-		i.inputs = append(i.inputs, inputRec{xn, "bool", 0}, inputRec{tn, "byte", 0})
+		if monitors {
+			i.inputs = append(i.inputs, inputRec{xn, "bool", 0}, inputRec{tn, "byte", 0})
+		}
 		x[b] = tt.Var(xn, 0)
 		tau[b] = tt.Var(tn, w)
 	}
@@ -651,6 +714,21 @@ func (i *interpreter) scheduleCheckPO(cpus int) {
 			valid = tt.And(valid, tt.Not(tt.And(tt.And(x[blocks[a]], x[blocks[c]]), tt.Eq(tau[blocks[a]], tau[blocks[c]]))))
 		}
 	}
+	if !monitors {
+		m := &poModel{valid: valid, full: tt.Bool(true)}
+		for _, b := range blocks {
+			m.full = tt.And(m.full, x[b])
+			for _, e := range t.threads[b.t].events[b.j].members() {
+				if e.kind == "access:a" {
+					m.accA = tau[b]
+				}
+				if e.kind == "access:b" {
+					m.accB = tau[b]
+				}
+			}
+		}
+		return m
+	}
 	oblige := func(c *Term, label string) {
 		i.stats.Checks++
 		if c.IsTrue() {
@@ -726,4 +804,141 @@ func (i *interpreter) scheduleCheckPO(cpus int) {
 		i.reach["complete-schedule-exists"]++
 		i.pathReach["complete-schedule-exists"]++
 	}
+	return &poModel{valid: valid, full: full}
+}
+
+// ---- data races ----
+
+func protectedBy(a, b accRec) bool {
+	for _, x := range a.locks {
+		for _, y := range b.locks {
+			if x.m == y.m && (x.write || y.write) {
+				return true
+			}
+		}
+	}
+	return false
+}
+
+// raceCheck: for every pair of accesses to one memory cell by two goroutines, at least one a
+// write, not protected by a common mutex, the solver is asked whether both orders occur in
+// complete valid schedules (the two accesses are inserted into the schedule model as
+// non-mover events at their program positions). Both orders feasible = the accesses are not
+// ordered by the synchronisation = data race.
+func (i *interpreter) raceCheck() {
+	t := i.trace
+	if t == nil {
+		panic("verifRaceCheck without verifTraceStart")
+	}
+	i.trace = nil
+	type posPair struct{ g1, p1, g2, p2 int }
+	cand := map[posPair]string{}
+	nCells, nPairs := 0, 0
+	for _, lst := range t.acc {
+		multi := false
+		for _, r := range lst[1:] {
+			if r.g != lst[0].g {
+				multi = true
+				break
+			}
+		}
+		if !multi {
+			continue
+		}
+		nCells++
+		for a := 0; a < len(lst); a++ {
+			for b := a + 1; b < len(lst); b++ {
+				x, y := lst[a], lst[b]
+				if x.g == y.g || !(x.write || y.write) || protectedBy(x, y) {
+					continue
+				}
+				nPairs++
+				if x.g > y.g {
+					x, y = y, x
+				}
+				k := posPair{x.g, x.pos, y.g, y.pos}
+				if _, ok := cand[k]; !ok {
+					kind := func(r accRec) string {
+						if r.write {
+							return "write in " + r.site
+						}
+						return "read in " + r.site
+					}
+					cand[k] = kind(x) + " / " + kind(y)
+				}
+			}
+		}
+	}
+	i.reach[fmt.Sprintf("race-analysis shared-cells=%d unprotected-conflicting-pairs=%d distinct-position-pairs=%d", nCells, nPairs, len(cand))]++
+	var keys []posPair
+	for k := range cand {
+		keys = append(keys, k)
+	}
+	sort.Slice(keys, func(a, b int) bool {
+		x, y := keys[a], keys[b]
+		if x.g1 != y.g1 {
+			return x.g1 < y.g1
+		}
+		if x.p1 != y.p1 {
+			return x.p1 < y.p1
+		}
+		if x.g2 != y.g2 {
+			return x.g2 < y.g2
+		}
+		return x.p2 < y.p2
+	})
+	i.noteAssume("race analysis: accesses are recorded at memory-cell granularity on one sequential run; mutexes protect (write mode needed on one side); ordering by other synchronisation is decided by the solver on the schedule model")
+	for _, k := range keys {
+		if i.bothOrders(t, k.g1, k.p1, k.g2, k.p2) {
+			i.raise("check", "data-race", cand[k], i.model)
+		}
+	}
+	i.pathReach["race-analysis-done"]++
+	i.reach["race-analysis-done"]++
+}
+
+// bothOrders builds the partial-order model with two extra access events and asks for both orders.
+func (i *interpreter) bothOrders(t *traceState, g1, p1, g2, p2 int) bool {
+	// copy the threads with the pseudo events inserted
+	cp := &traceState{semCap: t.semCap}
+	idx := map[[2]int]int{} // (thread, old event index) -> new index
+	for ti, th := range t.threads {
+		nt := &schedThread{parent: th.parent, spawnIdx: th.spawnIdx}
+		for j := 0; j <= len(th.events); j++ {
+			if ti == g1 && j == p1 {
+				nt.events = append(nt.events, schedEvent{kind: "access:a"})
+			}
+			if ti == g2 && j == p2 {
+				nt.events = append(nt.events, schedEvent{kind: "access:b"})
+			}
+			if j < len(th.events) {
+				idx[[2]int{ti, j}] = len(nt.events)
+				nt.events = append(nt.events, th.events[j])
+			}
+		}
+		cp.threads = append(cp.threads, nt)
+	}
+	for _, th := range cp.threads {
+		if th.parent >= 0 {
+			th.spawnIdx = idx[[2]int{th.parent, th.spawnIdx}]
+		}
+	}
+	m := i.poBuild(cp, 0, false)
+	A, B := m.accA, m.accB
+	if A == nil || B == nil {
+		panic("race model: access events lost")
+	}
+	base := append(append([]Lit{}, i.pc...), Lit{m.valid, false}, Lit{m.full, false})
+	v1, _ := i.solver.CheckOneShot(append(append([]Lit{}, base...), Lit{i.tt.Bin(OpUlt, A, B), false}), 300000)
+	if v1 != Sat {
+		if v1 == Unknown {
+			i.raise("unknown", "data-race", "solver answered unknown on a race query", i.model)
+		}
+		return false
+	}
+	v2, _ := i.solver.CheckOneShot(append(append([]Lit{}, base...), Lit{i.tt.Bin(OpUlt, B, A), false}), 300000)
+	if v2 == Unknown {
+		i.raise("unknown", "data-race", "solver answered unknown on a race query", i.model)
+	}
+	return v2 == Sat
 }
